@@ -17,7 +17,7 @@ from .bitdom import INF
 
 
 # -- formulas ------------------------------------------------------------------------------------------------------
-from .predlift import lift_predicate, to_formula, to_term, RAW_COMPARES, INST, POS, ENV, factory_name   # noqa: E402,F401
+from .predlift import lift_predicate, to_formula, to_term, RAW_COMPARES, UNGUARDED_EVALS, INST, POS, ENV, factory_name   # noqa: E402,F401
 
 
 def eval_formula(f, tup):
@@ -46,7 +46,7 @@ def eval_term(t, tup):
         return tup.get('name')
     if k == 'REG':
         return tup.get(t[1])
-    if k in ('IMM', 'IMMC'):
+    if k in ('IMM', 'IMMC', 'IMMX'):
         return tup.get('imm')
     if k == 'ISARITH':
         return True          # enumerated operands are literals
@@ -78,7 +78,7 @@ def mentions(f):
 def mentions_t(t):
     if t[0] == 'REG':
         return {t[1]}
-    if t[0] in ('IMM', 'IMMC'):
+    if t[0] in ('IMM', 'IMMC', 'IMMX'):
         return {'imm'}
     if t[0] == 'mod':
         return mentions_t(t[1]) | mentions_t(t[2])
@@ -142,6 +142,7 @@ class CompRel:
     def __init__(self, facts):
         self.facts = facts
         del RAW_COMPARES[:]
+        del UNGUARDED_EVALS[:]
         self.pa = LR.pass_analysis(facts, 'transform_compressible')
         self.factories = {}        # factory name -> (None, None, defining function node)
         self.rules = []
@@ -190,6 +191,7 @@ class CompRel:
         for ru in self.rules:
             ru.inst_isa = self.class_oracle(ru)
         self.raw_compares = sorted(set(RAW_COMPARES))
+        self.unguarded_evals = sorted(set(UNGUARDED_EVALS))
 
     def class_oracle(self, ru):
         """`inst isa X` for the items a rule applies to: the class parse_item / the expansions build for the rule's mnemonic."""
@@ -414,6 +416,39 @@ def simplify(f, assign):
             return flat[0]
         return (k, flat)
     return f
+
+
+def check_operand_value(report, rel, rule):
+    """The value a rule tests is the value the compressed instruction will carry: the operand's own value (i.imm.eval), never the
+    expression inside a %hi / %lo wrapper (i.imm.expr.eval) - c.lui of %hi(X) is legal when %hi(X) is in range, not when X is."""
+    n = 0
+    for ru in rel.rules:
+        terms = [t for f in ru.formulas for t in terms_of(f)]
+        if not any(t[0] in ('IMM', 'IMMC', 'IMMX') for t in terms):
+            continue
+        n += 1
+        con = rel.constructions.get(ru.key)
+        node = con.node if con is not None else rel.pa.loop
+        report.check(not any(t[0] == 'IMMX' for t in terms), rule, "rule '{}' tests the value of the operand itself".format(ru.key),
+                     lambda ru=ru, node=node: Finding(rule, 'transform_compressible', node,
+                                                      "rule '{}' tests the expression inside a %hi / %lo operand (i.imm.expr) instead of the operand's value: the compressed form is "
+                                                      'chosen for X but carries %hi(X) / %lo(X), which the compressed encoder can refuse (or which makes an eligible instruction stay 32 bits '
+                                                      'wide)'.format(ru.key), line=getattr(node, 'lineno', None)))
+    report.count('rules whose tested value is the operand', n)
+
+
+def check_guarded_evaluations(report, rel, rule):
+    """An immediate evaluated without the label table fails (AssemblerError: unknown name) for every expression that mentions a
+    label.  Inside a compression predicate that failure must mean 'not compressible': it has to be caught, otherwise a program that
+    assembles without -c stops assembling with it."""
+    for fname, table in rel.unguarded_evals:
+        node = rel.factories.get(fname, (None, None, rel.pa.fn))[2]
+        report.fail(Finding(rule, 'transform_compressible', node,
+                            "predicate {} evaluates the immediate against '{}' only (no labels) outside any handler for AssemblerError: an immediate that mentions a label "
+                            '(`addi a1, a0, end - start`) makes the -c build fail where the plain build succeeds'.format(fname, table), line=getattr(node, 'lineno', None)),
+                    instance='unguarded constants-only evaluation in {}'.format(fname))
+    if not rel.unguarded_evals:
+        report.ok(rule, 'every label-free evaluation of an immediate inside a compression predicate is under a handler for AssemblerError')
 
 
 def check_stable_decisions(report, rel, rule):
